@@ -170,4 +170,19 @@ example : Generated.Merge.parseTemplatesEntryEffects none (some ()) true = ["err
     Generated.Merge.parseTemplatesEntryEffects (some ()) (some ()) true = ["store rendered", "changesMade := true"] ∧
     Generated.Merge.parseTemplatesEntryEffects (some ()) (some ()) false = ["store rendered"] := by decide
 
+
+/-- **model = translation** (the outer loop of `Config.ParseTemplates`): with `fuel` rounds left before the cap of 20 the
+loop does what the translated loop body says – at the cap it ends with `ErrInfiniteLoop` (never a truncated result),
+otherwise it clears the flag, makes one round over the templated parameters and goes on exactly when that round changed
+a value -/
+theorem loop_step_is_the_translated_source (render : String → Except RErr String) (fuel : Nat) (vs : List String) :
+    (Generated.Merge.parseTemplatesRoundEffects (fuel == 0) = ["error: infinite loop"] ∧ fuel = 0 ∧
+        loop render fuel vs = .error .infiniteLoop) ∨
+    (Generated.Merge.parseTemplatesRoundEffects (fuel == 0) = ["changesMade := false", "range templateMap"] ∧
+      ∃ f, fuel = f + 1 ∧
+        loop render fuel vs = match round render vs with
+          | .error e => .error e
+          | .ok (vs', ch) => if ch then loop render f vs' else .ok vs') :=
+  loop_step_translated render fuel vs
+
 end Mockery.C11
